@@ -235,10 +235,11 @@ func constStr(ex *exec.Exec, v exec.Value) string {
 // RunGlobals: values of the std globals main.go reads.
 func RunGlobals() map[string]func(ex *exec.Exec) exec.Value {
 	return map[string]func(ex *exec.Exec) exec.Value{
-		"os.Stdout":      func(ex *exec.Exec) exec.Value { return &FileObj{Name: "stdout"} },
-		"os.Stderr":      func(ex *exec.Exec) exec.Value { return &FileObj{Name: "stderr"} },
-		"os.ErrNotExist": func(ex *exec.Exec) exec.Value { return ex.NewError(ex.C.StrC("file does not exist"), "notexist") },
-		"flag.Usage":     func(ex *exec.Exec) exec.Value { return exec.NilV{} },
+		"os.Stdout":         func(ex *exec.Exec) exec.Value { return &FileObj{Name: "stdout"} },
+		"os.Stderr":         func(ex *exec.Exec) exec.Value { return &FileObj{Name: "stderr"} },
+		"os.ErrNotExist":    func(ex *exec.Exec) exec.Value { return ex.NewError(ex.C.StrC("file does not exist"), "notexist") },
+		"flag.Usage":        func(ex *exec.Exec) exec.Value { return exec.NilV{} },
+		"go/types.Universe": func(ex *exec.Exec) exec.Value { return UniverseScope(ex) },
 	}
 }
 
